@@ -25,6 +25,11 @@ func getParser(br *bufio.Reader, file string) parser.Parser {
 
 func setDefineInfos(p *parser.Parser) {
 	for _, article := range eval.DefineInfoArticles {
+		// definitions of preloaded files are not part of the target's hints
+		if article.P.FileName != p.FileName {
+			continue
+		}
+
 		ctx := article.Ctx
 
 		methodT := article.MethodT
